@@ -107,6 +107,54 @@ def rule_e_loop_exit(ctx, cfg='prod-all'):
                             found['gt'] = found['lt'] = True      # the bit length of e equals le: both ends
                         if any(n.startswith('sk.p') for n in names) and any(n.startswith('sk.q') for n in names):
                             found['gcd'] = True
+        # the same search written with iterator adaptors: `iter::repeat_with(|| random_prime(le)).find(|e| tests(e))`: the candidates come from
+        # the generating closure, the exit tests are what the predicate's `true` rests on
+        if not prime_in_loop:
+            from flow import ClosureFrame, _classify_value
+            for fr in walk(eng, entry.path, max_depth=4, include_closures=False):
+                if fr.path != entry.path and not fr.path.startswith(('cl03::signature::', 'cl03::blind::')):
+                    continue
+                lb, lfd = fr.body, fr.fd
+                for bi_, t_ in lb.calls():
+                    if (t_.get('callee') or '') != 'std::iter::Iterator::find' or len(t_['args']) != 2 or t_['args'][1]['k'] not in ('copy', 'move'):
+                        continue
+                    # the receiver: repeat_with(gen)
+                    l_ = t_['args'][0]['pl']['l'] if t_['args'][0]['k'] in ('copy', 'move') else None
+                    gen = None
+                    for _ in range(5):
+                        ds_ = [d_ for d_ in lfd.defs.get(l_, []) if not d_[2].get('dst', {}).get('p')] if l_ is not None else []
+                        if len(ds_) != 1:
+                            break
+                        d_ = ds_[0]
+                        if d_[0] == 'assign' and d_[2]['rv']['k'] in ('use', 'ref'):
+                            src_ = d_[2]['rv'].get('pl') or d_[2]['rv'].get('op', {}).get('pl')
+                            l_ = src_['l'] if src_ else None
+                            continue
+                        if d_[0] == 'call' and (d_[2].get('callee') or '') in ('std::iter::repeat_with', 'core::iter::repeat_with') and d_[2]['args'] \
+                                and d_[2]['args'][0]['k'] in ('copy', 'move'):
+                            gen = lfd._closure_info(d_[2]['args'][0]['pl']['l'])
+                        break
+                    pred = lfd._closure_info(t_['args'][1]['pl']['l'])
+                    if gen is None or pred is None or gen[0] not in prog.bodies or pred[0] not in prog.bodies:
+                        continue
+                    if not any((local_target(eng, tt) or '').endswith('random_prime') for _b, tt in prog.bodies[gen[0]].calls()):
+                        continue
+                    prime_in_loop = True
+                    pfd = eng.fndep(pred[0])
+                    cf = ClosureFrame(eng, pred[0], fr)
+                    g0 = _classify_value(eng, pfd, {'l': 0}, 0, None, 0)
+                    g0.truth = True
+                    for g2 in ga._flatten(g0):
+                        w = g2.what or ''
+                        names = {fmt_atom(entry, a) for a in cf.lift(g2.all_atoms())}
+                        if ('PartialOrd::gt' in w or 'PartialOrd::ge' in w) and 'le' in names:
+                            found['gt'] = True
+                        if ('PartialOrd::lt' in w or 'PartialOrd::le' in w) and 'le' in names:
+                            found['lt'] = True
+                        if g2.kind == 'cmp' and g2.what == 'Eq' and g2.truth is True and 'le' in names:
+                            found['gt'] = found['lt'] = True
+                        if any(n.startswith('sk.p') for n in names) and any(n.startswith('sk.q') for n in names):
+                            found['gcd'] = True
         # provenance of e at the signature aggregate
         e_ok = False
         for fr in walk(eng, entry.path, max_depth=3, include_closures=False):
@@ -137,6 +185,8 @@ def rule_issuing_functions_gated(ctx, cfg='prod-all', scope=('cl03::blind::',)):
         kc = [k for k in range(1, b.arg_count + 1) if 'CL03Commitment' in b.local_ty(k) and 'Key' not in b.local_ty(k)]
         if ksk is None or not kc:
             continue
+        if not b.is_pub:
+            continue      # a private helper shared by the issuing functions: what reaches it is decided by the functions that can be called from outside
         n += 1
         gated = any((local_target(eng, t) or '').endswith('verify_proof') for bi, t in b.calls())
         yield Ob('RF-D', '%s#commitment-proven' % p, gated,
@@ -1541,6 +1591,59 @@ def _element_draw(eng, zf, l, depth=0):
     return None
 
 
+def _tests_membership_table(b, fd, g, kidx):
+    """the condition is an element `table[i]` of a Vec<bool> that was created all false (`vec![false; n]`) and in which `true` is written only
+    at positions taken from the list parameter kidx"""
+    sw = b.blocks[g.edge[0]]['term']
+    if sw['k'] != 'switch' or sw['discr']['k'] not in ('copy', 'move'):
+        return False
+    # the tested boolean: a copy of `(*idx_result)` where idx_result = Index::index(&table, i), or `table[i]` read in place
+    l = sw['discr']['pl']['l']
+    table = None
+    for _ in range(5):
+        ds = [d for d in fd.defs.get(l, []) if not d[2].get('dst', {}).get('p')]
+        if len(ds) != 1:
+            return False
+        d = ds[0]
+        if d[0] == 'assign' and d[2]['rv']['k'] == 'use' and d[2]['rv']['op']['k'] in ('copy', 'move'):
+            pl = d[2]['rv']['op']['pl']
+            if any(q['k'] == 'index' for q in pl.get('p', [])):
+                table = fd.resolve_place({'l': pl['l']})[0]
+                break
+            l = pl['l']
+            continue
+        if d[0] == 'call' and (d[2].get('callee') or '') == 'std::ops::Index::index' and d[2]['args'] and d[2]['args'][0]['k'] in ('copy', 'move'):
+            table = fd.resolve_place(d[2]['args'][0]['pl'])[0]
+            break
+        return False
+    if table is None or not b.local_ty(table).startswith('std::vec::Vec<bool'):
+        return False
+    cr = [d for d in fd.defs.get(table, []) if not d[2].get('dst', {}).get('p')]
+    if len(cr) != 1 or cr[0][0] != 'call' or not (cr[0][2].get('callee') or '').endswith('from_elem') or not cr[0][2]['args'] \
+            or cr[0][2]['args'][0].get('k') != 'const' or cr[0][2]['args'][0].get('int') != '0':
+        return False
+    # writes: through IndexMut::index_mut(&mut table, h) / get_mut(h) with h from the list, value const true
+    writes = 0
+    for bi, t in b.calls():
+        cal = t.get('callee') or ''
+        if cal in ('std::ops::IndexMut::index_mut', 'core::slice::<impl [T]>::get_mut', 'std::vec::Vec::<T, A>::get_mut') and len(t['args']) == 2 \
+                and t['args'][0]['k'] in ('copy', 'move') and fd.resolve_place(t['args'][0]['pl'])[0] == table:
+            ats = fd.read_op(t['args'][1])
+            if not any(strip(a)[0] == 'p' and strip(a)[1] == kidx for a in ats):
+                return False
+            writes += 1
+        elif any(a['k'] in ('copy', 'move') and b.local_ty(a['pl']['l']).startswith('&mut ') and fd.resolve_place(a['pl'])[0] == table for a in t['args']):
+            return False
+    if not writes:
+        return False
+    for bi, st in b.stmts():
+        if st['k'] == 'assign' and st['dst'].get('p') and any(q['k'] == 'deref' for q in st['dst']['p']):
+            r0 = fd.resolve_place(st['dst'])[0]
+            if r0 == table and not (st['rv']['k'] == 'use' and st['rv']['op'].get('k') == 'const' and st['rv']['op'].get('int') == '1'):
+                return False
+    return True
+
+
 def rule_mask_vectors(ctx, cfg='prod-all'):
     """per-attribute masks: (1) every element is a separate random_bits draw made inside the loop that stores it (no vec![x; n], no hoisting);
     (2) in the signature proof, position i of r_5 holds a random mask exactly when i is in the hidden-position list (membership test on the
@@ -1556,6 +1659,29 @@ def rule_mask_vectors(ctx, cfg='prod-all'):
         za.summary(fn)
         zf = za.zf(fn)
         roots = [l for l, loc in enumerate(b.locals) if loc.get('name') == vec and loc['ty'].startswith('std::vec::Vec<') and 'rug::Integer' in loc['ty']]
+        if not roots:
+            # the body of the prover was moved into a private function of the module (`try_generate_proof`, a helper shared by two provers):
+            # the mask vector is looked for there - by its name, or (one list of integers filled from random_bits) by what it is
+            for bi_, t_ in b.calls():
+                tg_ = local_target(eng, t_)
+                if not tg_ or tg_ not in prog.bodies or not tg_.startswith('cl03::sigma_protocols::') or prog.bodies[tg_].is_pub or tg_ in fns:
+                    continue
+                hb = prog.bodies[tg_]
+                named = [l for l, loc in enumerate(hb.locals) if loc.get('name') == vec and loc['ty'].startswith('std::vec::Vec<') and 'rug::Integer' in loc['ty']]
+                if not named:
+                    hfd = eng.fndep(tg_)
+                    cand = []
+                    for l, loc in enumerate(hb.locals):
+                        if l > hb.arg_count and loc.get('name') and loc['ty'].startswith('std::vec::Vec<') and 'rug::Integer' in loc['ty'] \
+                                and any(a[0] == 'o' and a[1].endswith('thread_rng') for a in hfd.read(l, ())):
+                            cand.append(l)
+                    named = cand if len(cand) == 1 else []
+                if named:
+                    b, fn_body, roots = hb, tg_, named
+                    fd = eng.fndep(tg_)
+                    za.summary(tg_)
+                    zf = za.zf(tg_)
+                    break
         if not roots:
             raise AnchorMissing('%s: mask vector %s' % (fn, vec))
         root = roots[0]
@@ -1681,6 +1807,10 @@ def rule_mask_vectors(ctx, cfg='prod-all'):
                             want = (label == 'random')
                             if on_list and idx_ok and g.truth == want:
                                 good = True
+                        # the membership written down once as a table of booleans: `is_hidden[i]` with `is_hidden` false everywhere except at
+                        # the positions of the hidden-position list
+                        if g.kind in ('match', 'cmp', 'call') and g.edge is not None and g.truth == (label == 'random') and _tests_membership_table(b, fd, g, kidx):
+                            good = True
                     ok = ok and good
                 res[label] = ok
             yield Ob('RF-G2', '%s#r_5:selection' % fn, res.get('random') and res.get('revealed'),
